@@ -112,11 +112,38 @@ let () =
               else "ok" in
         let verdict = String.map (fun c -> if c = ' ' then '_' else c) verdict in
         Mlutil.print_model mtoks verdict
-    | [n; _; _] when kind = "sched" ->
-        (* Events.v: a per-listener FIFO broker calls each listener serially and in emit order
-           (theorems listener_serial, delivery_is_emit_order); the oracle demands it of the code *)
-        let want = ["ser=1"; "ord=1"; "n=" ^ n] in
-        Mlutil.print_model want (if outs = want then "ok" else "fail:listener-not-serial-or-out-of-order")
+    | [n; b; brokers] when kind = "sched" ->
+        (* Events.v: a per-listener FIFO broker calls each listener serially (listener_serial) and with
+           exactly the emitted events in emit order (delivery_is_emit_order); the oracle demands it *)
+        let n = int_of_string n and b = int_of_string b and brokers = int_of_string brokers in
+        let to_d i = brokers = 2 && i < b && i mod 2 = 1 in
+        let rec range i = if i >= n then [] else i :: range (i + 1) in
+        let show l = if l = [] then "-" else String.concat "," (List.map string_of_int l) in
+        let want = ["ser=1"; "s=" ^ show (List.filter (fun i -> not (to_d i)) (range 0));
+                    "d=" ^ show (List.filter to_d (range 0))] in
+        Mlutil.print_model want (if outs = want then "ok" else "fail:listener-not-serial-or-not-in-emit-order")
+    | [groups; _] when kind = "sched2" ->
+        (* bursts emitted while the listener is busy: still exactly the emitted events, in emit order *)
+        let n = List.fold_left (fun a g -> a + int_of_string g) 0 (split ',' groups) in
+        let rec range i = if i >= n then [] else i :: range (i + 1) in
+        let want = ["ser=1"; "s=" ^ String.concat "," (List.map string_of_int (range 0))] in
+        Mlutil.print_model want (if outs = want then "ok" else "fail:listener-not-serial-or-not-in-emit-order")
+    | [_; _; _; _; _] when kind = "conc" ->
+        (* forced schedules of concurrent operations: which messages survive depends on the schedule,
+           so the implementation's observation is echoed; the oracle is the schedule-independent
+           conservation law of Proofs/EventsCount.v (stored_once, deleted_once): per delivered message
+           exactly one stored event and deleted + live = stored *)
+        let bad = List.filter (fun t ->
+          match split ':' t with
+          | [name; s; d; l] ->
+              (match int_of_string_opt s, int_of_string_opt d, int_of_string_opt l with
+               | Some s, Some d, Some l -> not (String.length name > 0 && name.[0] = 't' && s = 1 && d + l = s)
+               | _ -> true)
+          | _ -> true) outs in
+        let verdict = match bad with
+          | [] -> if outs = [] then "fail:no-observation" else "ok"
+          | t :: _ -> "fail:event-count:" ^ t in
+        Mlutil.print_model outs verdict
     | [_] when kind = "xbroker" ->
         (* Events.v Part 3: the two-broker model run on the schedule of finding K-C16-cross-broker-order
            predicts the consumer's log; the oracle demands stored(n) before deleted(n) of what the
